@@ -87,6 +87,40 @@ def cxx_build(extra='', tag='plain'):
         raise Stage('c++ build', log[-3000:])
     return exe
 
+def engines_build():
+    """the standard-engine differential driver (C++-only checks of C03, C05, C10): one executable per numeric type"""
+    key = tree_hash([os.path.join(REPO, 'include'), os.path.join(VERIF, 'harness', 'cxx', 'engines.cpp')], ('.hpp', '.cpp'))
+    out = os.path.join(BUILD, 'eng-' + key)
+    exes = [os.path.join(out, 'engines_' + t) for t in 'fdl']
+    if all(os.path.exists(e) for e in exes):
+        return exes
+    for d in os.listdir(BUILD) if os.path.isdir(BUILD) else []:
+        if d.startswith('eng-'):
+            shutil.rmtree(os.path.join(BUILD, d), ignore_errors=True)
+    os.makedirs(out, exist_ok=True)
+    src = os.path.join(VERIF, 'harness', 'cxx', 'engines.cpp')
+    procs = []
+    for t, name in zip('fdl', ['float', 'double', 'long double']):
+        procs.append(subprocess.Popen(['g++', '-std=c++11', '-O1', '-ffp-contract=off', '-I%s/include' % REPO, '-DENG_TYPE=%s' % name, src, '-o', os.path.join(out, 'engines_' + t)],
+                                      stdout=subprocess.PIPE, stderr=subprocess.STDOUT, universal_newlines=True))
+    logs = [p.communicate()[0] for p in procs]
+    if any(p.returncode != 0 for p in procs):
+        shutil.rmtree(out, ignore_errors=True)
+        raise Stage('c++ build (engines)', '\n'.join(logs)[-3000:])
+    return exes
+
+def run_engines(seed):
+    """returns (lines starting with FAIL, summary dict)"""
+    fails = []; ok = 0
+    for exe in engines_build():
+        p = subprocess.run([exe, str(seed)], stdout=subprocess.PIPE, stderr=subprocess.PIPE, universal_newlines=True, timeout=600)
+        if p.returncode != 0:
+            fails.append('FAIL C10 engine driver %s ended with status %d: %s' % (os.path.basename(exe), p.returncode, p.stderr[-200:]))
+        for l in p.stdout.split('\n'):
+            if l.startswith('FAIL'): fails.append(l)
+            if l.startswith('SUMMARY'): ok += int(l.split('ok=')[1].split()[0])
+    return fails, ok
+
 def run_driver(exe, lines, env=None, chunk=400, timeout=1800):
     """feed case lines, return output lines (one per case); parallel over chunks"""
     import concurrent.futures
